@@ -155,6 +155,37 @@ def record_pure(tid: str, tt: list[list[int]], seed: int, kinds: list[str], per_
                 e["res"] = [vec(x, names) for x in r]
             emit(e, call)
 
+    if "trappist_grid" in kinds and n == 2:
+        # exhaustive argument grid on two-variable networks: every enclosing subspace x (no / every single avoided subspace)
+        # x problem x time direction, and every retained set x enclosing subspace for the reduced-STG solver
+        nonfree = [sp for sp in spaces if any(x != 2 for x in sp)]
+        for ens in spaces:
+            for av in [[]] + [[a] for a in nonfree]:
+                for problem in ("min", "max", "fix"):
+                    if problem == "max" and all(x != 2 for x in ens):
+                        continue
+                    for rev in (False, True):
+                        e = _default(n)
+                        e.update(k="trappist", problem=problem, rev=rev, ensure=list(ens), avoid=[list(a) for a in av],
+                                 autosrc=True, limit=-1, frompn=bool(len(events) % 2))
+
+                        def call(e):
+                            r = trappist_core.trappist(pn if e["frompn"] else net, problem=e["problem"], reverse_time=e["rev"],
+                                                       ensure_subspace=space_of(e["ensure"], names),
+                                                       avoid_subspaces=[space_of(a, names) for a in e["avoid"]])
+                            e["res"] = [vec(x, names) for x in r]
+                        emit(e, call)
+        for ret in spaces:
+            for ens in spaces:
+                e = _default(n)
+                e.update(k="reduced", retained=list(ret), ensure=list(ens), avoid=[], limit=-1)
+
+                def call(e):
+                    r = trappist_core.compute_fixed_point_reduced_STG(pn, space_of(e["retained"], names),
+                                                                      ensure_subspace=space_of(e["ensure"], names))
+                    e["res"] = [vec(x, names) for x in r]
+                emit(e, call)
+
     if "reduced" in kinds:
         for _ in range(per_kind):
             e = _default(n)
